@@ -545,7 +545,9 @@ class Engine:
             b = self.find_body(self.unit_qual(fr, strip_generics(c["def"]))) or self.find_body(strip_generics(c["def"]))
             if b is not None and b.bkind == "const":
                 v = self.eval_promoted(b.mir) if not c.get("defargs") else None
-                if v is None and c.get("defargs"):
+                if v is TOP:
+                    v = None                       # the initialiser refers to its own promoteds: evaluate it as an item
+                if v is None:
                     try:
                         v = self.eval_static(b)
                     except Exception:
